@@ -1,6 +1,8 @@
 //! Correspondence harness: runs the real rs-tftpd code on line-protocol cases.
+mod capture;
 mod codec;
 mod util;
+mod worker;
 
 use std::fs::File;
 use std::io::{BufRead, BufReader, BufWriter, Write};
@@ -12,6 +14,9 @@ fn dispatch(line: &str) -> String {
     }
     match toks[0] {
         "dec" | "enc" | "opc" | "erc" | "optname" | "utf8" | "pusize" | "todec" => codec::line(&toks),
+        "win" => worker::win_line(&toks),
+        "snd" => worker::snd_line(&toks),
+        "rcv" => worker::rcv_line(&toks),
         _ => "bad-op".to_string(),
     }
 }
@@ -24,11 +29,18 @@ fn main() {
     }
     // silence the panic messages of caught panics
     std::panic::set_hook(Box::new(|_| {}));
+    tftpd::verif::set_virtual(true);
+    std::fs::create_dir_all(util::scratch()).unwrap();
+    capture::init(&util::scratch());
     let input = BufReader::new(File::open(&args[2]).expect("cases"));
     let mut out = BufWriter::new(File::create(&args[3]).expect("out"));
-    for line in input.lines() {
+    for (i, line) in input.lines().enumerate() {
         let line = line.expect("line");
+        if i % 2000 == 1999 {
+            capture::truncate();
+        }
         let res = std::panic::catch_unwind(|| dispatch(&line)).unwrap_or_else(|_| "panic".to_string());
         writeln!(out, "{}", res).unwrap();
     }
+    let _ = std::fs::remove_dir_all(util::scratch());
 }
